@@ -25,6 +25,8 @@ def item_to_harness(it):
             if k in it:
                 out[k] = it[k]
         return out
+    if t == 'http' and False:
+        pass
     if t == 'part':
         return {"t": "raw", "b": [0x81]}
     if t == 'f':
